@@ -112,6 +112,11 @@ class Program:
                 if kind == 'setter' and not any(d.endswith('.setter') for d in decs): continue
                 if kind == 'getter' and not any(d.split('.')[-1].split('(')[0].endswith('property') for d in decs): continue
                 return c, m
+        if kind == 'setter':       # a setter may be registered under another function name:  @<name>.setter  def __<name>(self, value)
+            for c in s.mro(cls):
+                for ms in s.classes[c].methods.values():
+                    for m in ms:
+                        if any(ast.unparse(d) == f'{name}.setter' for d in m.decorator_list): return c, m
         return None, None
     def mro(s, cls):
         out = [cls]
